@@ -147,19 +147,26 @@ func pathReplay(s *Summary, raw json.RawMessage) {
 func pathFinish(s *Summary) {
 	// reach relation: a route registered as P is reached by exactly the request strings with the same normal form
 	pairs := 0
-	for _, st := range []string{"T", "F"} {
+	// (every other option that has nothing to do with the normal form leaves the relation alone: UseEncodedPath changes which
+	// string of the URL a served request is looked up with, not how a string is normalised at registration or lookup)
+	for _, stEnc := range []string{"T", "F", "T+enc", "F+enc"} {
+		st, enc := stEnc[:1], strings.HasSuffix(stEnc, "+enc")
 		for _, tp := range pathSt.texts {
 			p := tokStr(tp.P)
 			var r *rux.Router
 			if !guard(s, map[string]any{"kind": "path", "registered": p, "what": "Add"}, tp.P, func() {
-				r = newRouter(append(strictOpts(st), rux.HandleMethodNotAllowed)...)
+				opts := append(strictOpts(st), rux.HandleMethodNotAllowed)
+				if enc {
+					opts = append(opts, rux.UseEncodedPath)
+				}
+				r = newRouter(opts...)
 				r.Add(p, nopHandler, "GET")
 			}) {
 				continue
 			}
 			regNorm := tokStr(tp.Reg[st])
 			// InterceptAll(p): every request is resolved as a request for p, and p is normalised like p was when it was registered
-			if strings.TrimSpace(p) != "" && !strings.ContainsAny(p, "{[") {
+			if !enc && strings.TrimSpace(p) != "" && !strings.ContainsAny(p, "{[") {
 				desc := map[string]any{"kind": "path", "aspect": "reach", "strict": st == "T", "registered": p, "request": "/zz/any",
 					"what": fmt.Sprintf("route registered as %q on a router with InterceptAll(%q), strict=%s: a request for /zz/any does not reach it", p, p, st)}
 				guard(s, desc, tp.P, func() {
@@ -176,7 +183,7 @@ func pathFinish(s *Summary) {
 				want := regNorm == tokStr(tq.Req[st])
 				pairs++
 				desc := map[string]any{"kind": "path", "aspect": "reach", "strict": st == "T", "registered": p, "request": q,
-					"what": fmt.Sprintf("route registered as %q, request path %q, strict=%s", p, q, st)}
+					"what": fmt.Sprintf("route registered as %q, request path %q, strict=%s", p, q, stEnc)}
 				guard(s, desc, []any{tp.P, tq.P}, func() {
 					rt, _, _ := r.Match("GET", q)
 					s.Compared++
